@@ -98,6 +98,28 @@ package writecache
 //@   loop 5 invariant handledAddr && !flushB ==> i + 1 < len(sortedAddrs)
 //@   loop 6 invariant -1 <= rangeindex && rangeindex < len(b) && pending(0) + rangeindex + 1 == len(b) + ite(handledAddr, 0, 1)
 
+// The worker's side of the same protocol: whatever the outcome of the flush, every address
+// of the batch a worker received is unmarked before the worker takes the next batch (so a
+// failed flush is retried by a later tick instead of being skipped forever).
+//@ ghost field unmarked(x int) int
+//@ ghost field received(x int) int
+//@ callrule worker_receives_batch in (*cache).flushWorker
+//@   property C17
+//@   callee chanrecv(cache.flushCh)
+//@   assigns received
+//@   defines received(0) == old(received(0)) + len(a0)
+//@ callrule worker_unmarks_address in (*cache).flushWorker
+//@   property C17
+//@   callee (*sync.Map).Delete
+//@   assigns unmarked
+//@   defines unmarked(0) == old(unmarked(0)) + 1
+//@ func (*cache).flushWorker
+//@   property C17
+//@   mode bv
+//@   valid unmarked(0) == received(0)
+//@   loop 1 invariant [every_received_address_unmarked_before_the_next_batch] unmarked(0) == received(0)
+//@   loop 2 invariant -1 <= rangeindex && rangeindex < len(addrs) && unmarked(0) + len(addrs) == received(0) + rangeindex + 1
+
 // ---- C14 (write-cache layer): the cache's own store is written and the main storage is
 // fed only on a path where the cache's mode was found writable. put is a helper without its own check: it demands it from every caller; the calls
 // of delete/flushSingle/flushBatch in Put, Delete and the flush workers are checked in place.
